@@ -210,6 +210,17 @@ var propSpecs = []PropSpec{
 				cfg.Preempt = 2
 			}
 		}},
+	{ID: "C10", Pkgs: []string{"srv"},
+		BoundsQ:     "phases: Run in {blocks until the context ends, ok, error, panic} x Shutdown, Cleanup in {absent, ok, error, panic} x ErrorHandler absent/present x ending by Run returning, Close or parent cancel after Start returned, one starter, preemption bound 1; concurrency: 2 concurrent Start callers plus optionally a Close or a Wait caller, Run blocking or returning at once, preemption bound 2",
+		BoundsT:     "phases at preemption bound 2; 3 concurrent Start callers",
+		Outside:     "Close/cancel issued before Start returned in the phase matrix (covered by the concurrency entry for ok phases only); panicking ErrorHandler; srv.HTTP/Cmd and the other wrappers (C11)",
+		Assumptions: commonAssumptions,
+		Tune: func(cfg *Config, tier, entry string) {
+			cfg.Preempt = 1
+			if entry == "VC10_Concurrent" || tier == "thorough" {
+				cfg.Preempt = 2
+			}
+		}},
 	{ID: "TV", Pkgs: []string{"internal"}, BoundsQ: "translator validation corpus"},
 }
 
